@@ -11,14 +11,21 @@ Open Scope string_scope.
 Definition body_eqb (a b : body) : bool :=
   kind_eqb (b_kind a) (b_kind b) && String.eqb (version a) (version b)
   && opt_eqb String.eqb (destination a) (destination b) && Z.eqb (issued a) (issued b)
+  && zone_eqb (izone a) (izone b)
   && opt_eqb String.eqb (issuer a) (issuer b) && Bool.eqb (xsd_ok a) (xsd_ok b)
   && Bool.eqb (inst_ok a) (inst_ok b) && Nat.eqb (rest a) (rest b).
 
+Lemma zone_eqb_eq a b : zone_eqb a b = true <-> a = b.
+Proof.
+  destruct a as [| |m|], b as [| |n|]; cbn [zone_eqb]; try (split; congruence).
+  rewrite Z.eqb_eq. split; congruence.
+Qed.
+
 Lemma body_eqb_eq a b : body_eqb a b = true <-> a = b.
 Proof.
-  unfold body_eqb. rewrite !andb_true_iff, kind_eqb_eq, String.eqb_eq, !opt_str_eqb_eq, Z.eqb_eq,
+  unfold body_eqb. rewrite !andb_true_iff, kind_eqb_eq, String.eqb_eq, !opt_str_eqb_eq, Z.eqb_eq, zone_eqb_eq,
     !Bool.eqb_true_iff, Nat.eqb_eq.
-  destruct a, b; cbn. split; [intros [[[[[[[-> ->] ->] ->] ->] ->] ->] ->]; reflexivity|].
+  destruct a, b; cbn. split; [intros [[[[[[[[-> ->] ->] ->] ->] ->] ->] ->] ->]; reflexivity|].
   intros E; inversion E; subst; tauto.
 Qed.
 
@@ -91,7 +98,7 @@ Definition enveloped_valid_b (x : iinput) (e : ienvsig) : bool :=
 Definition detached_valid_b (x : iinput) : bool :=
   match sigalg x, signature x with
   | Some sa, Some (Some (k, o)) =>
-      octets_eqb o (origdoc x, relay_state x, sa) && memn k (md_certs (cfg x) (sender (msg x)))
+      octets_eqb o (origdoc x, relay_state x, sa) && memn k (md_certs (cfg x) (sender (msg x))) && mem sa SIG_ALGS
   | _, _ => false
   end.
 
@@ -132,7 +139,10 @@ Definition spec_with_b (requires certonly : bool) (x : iinput) (v : verdict) : b
       | None => true
       end
    && String.eqb (version (msg x)) "2.0"
-   && ((now x - 86400 - skew c <=? issued (msg x)) && (issued (msg x) <=? now x + 86400 + skew c))%Z).
+   && match denoted (msg x) with
+      | Some t => ((now x - 86400 - skew c <=? t) && (t <=? now x + 86400 + skew c))%Z
+      | None => false
+      end).
 
 (* in-memory reading *)
 Definition spec_b (x : iinput) (v : verdict) : bool :=
@@ -192,14 +202,15 @@ Definition mdf (t : mdtab) : option string -> list nat :=
 
 (* mk: receiver configuration (the two options AS WRITTEN: ws, ovc; and as Config.getattr answered them after
    loading: gws, govc - CAbsent stands for the answer None), clock, entry point, binding, transport
-   encoding, message fields, enveloped signature (signer, content altered after signing, profile
+   encoding, message fields (IssueInstant: the written date and time read as UTC, and the zone designator written
+   after them), enveloped signature (signer, content altered after signing, profile
    constraints met, embedded certificates), RelayState / SigAlg / Signature as handed in — the detached
    signature is None = not a signature, or (signer, other document signed?, RelayState signed, SigAlg
    signed) — and the verdict observed on the implementation *)
 Definition mk (etyp : string) (epl : list (string * string * list epspec)) (ws ovc gws govc : cval)
     (td : option Z) (omd : bool) (mdl : list (string * list nat)) (valid : option (list nat))
     (nw : Z) (exp : kind) (bnd : option string) (w : wire)
-    (bk : kind) (ver : string) (dst : option string) (iss : Z) (issr : option string) (xsd inst : bool)
+    (bk : kind) (ver : string) (dst : option string) (iss : Z) (zn : zone) (issr : option string) (xsd inst : bool)
     (envs : option (nat * bool * bool * list nat))
     (rs sa : option string) (sg : option (option (nat * bool * option string * string)))
     (obs : nat) : case :=
@@ -207,11 +218,11 @@ Definition mk (etyp : string) (epl : list (string * string * list epspec)) (ws o
   let c := Build_config etyp (lookup_eps epl) None None td omd
              (mdf mdl)
              (fun ct => match valid with None => true | Some l => memn ct l end) in
-  let b := Build_body bk ver dst iss issr xsd inst 7 in
+  let b := Build_body bk ver dst iss zn issr xsd inst 7 in
   let e := match envs with
            | None => None
            | Some (k, tampered, shape, emb) =>
-               Some (Build_envsig (k, if tampered then Build_body bk ver dst iss issr xsd inst 8 else b) shape emb)
+               Some (Build_envsig (k, if tampered then Build_body bk ver dst iss zn issr xsd inst 8 else b) shape emb)
            end in
   let g := match sg with
            | None => None
@@ -339,8 +350,9 @@ Lemma detached_valid_b_iff x : detached_valid_b x = true <-> detached_valid icer
 Proof.
   unfold detached_valid_b, detached_valid, icert_of, idsign. split.
   - destruct (sigalg x) as [sa|]; [|discriminate]. destruct (signature x) as [[[k o]|]|]; try discriminate.
-    rewrite andb_true_iff, octets_eqb_eq, memn_In. intros [-> H]. exists k, sa, (Some (k, (origdoc x, relay_state x, sa))). auto.
-  - intros (k & sa & sg & -> & -> & -> & H). rewrite andb_true_iff, octets_eqb_eq, memn_In. auto.
+    rewrite !andb_true_iff, octets_eqb_eq, memn_In, mem_In. intros [[-> H] Hal].
+    exists k, sa, (Some (k, (origdoc x, relay_state x, sa))). unfold sig_alg. auto.
+  - intros (k & sa & sg & -> & -> & -> & H & Hal). rewrite !andb_true_iff, octets_eqb_eq, memn_In, mem_In. auto.
 Qed.
 
 Lemma roles_iff etyp ctx : In ctx (roles etyp) <-> role_of etyp ctx.
@@ -410,7 +422,7 @@ Proof.
         apply any_own_b_iff in Hex. rewrite Hex in H3. discriminate.
       * apply own_endpoint_b_iff. exact H3.
     + apply String.eqb_eq. exact H4.
-    + lia.
+    + destruct (denoted (msg x)) as [t|]; [|discriminate]. exists t. split; [reflexivity|lia].
   - intros H. destruct (H eq_refl) as (H1 & H2 & H3 & H4 & H5). clear H.
     split; [split; [split; [split|]|]|].
     + destruct R eqn:Er; [|reflexivity]. cbn [negb orb].
@@ -427,7 +439,7 @@ Proof.
       apply own_endpoint_b_iff. apply H3; [reflexivity| |apply any_own_b_iff; exact Ea].
       intros ->. discriminate.
     + apply String.eqb_eq. exact H4.
-    + lia.
+    + destruct H5 as [t [-> Ht]]. lia.
 Qed.
 
 Lemma spec_b_iff x v : spec_b x v = true <-> spec icert_of iesign idsign x v.
@@ -503,7 +515,7 @@ Definition ex_cfg : iconfig :=
     (fun o => match o with Some e => lookup_md [("https://sp.example.org/sp.xml", [1])] e | None => [] end)
     (fun _ => true).
 Definition ex_body (d : string) : body :=
-  Build_body AuthnRequest "2.0" (Some d) 1700000000 (Some "https://sp.example.org/sp.xml") true true 7.
+  Build_body AuthnRequest "2.0" (Some d) 1700000000 ZUtc (Some "https://sp.example.org/sp.xml") true true 7.
 Definition ex_post : iinput :=
   let b := ex_body "https://idp.example.org/sso/post" in
   Build_input ex_cfg 1700000000 AuthnRequest (Some BINDING_HTTP_POST) WBase64 1 b
@@ -541,7 +553,7 @@ Proof. split; [left; vm_compute; auto|split; vm_compute; reflexivity]. Qed.
 Definition src_ovc_False : source := {| s_ws := CAbsent; s_ovc := CStr "False" |}.
 Definition ex_tampered : iinput :=
   let b := ex_body "https://idp.example.org/sso/post" in
-  let signed := Build_body AuthnRequest "2.0" (Some "https://idp.example.org/sso/post") 1700000000
+  let signed := Build_body AuthnRequest "2.0" (Some "https://idp.example.org/sso/post") 1700000000 ZUtc
                   (Some "https://sp.example.org/sp.xml") true true 8 in
   Build_input ex_cfg 1700000000 AuthnRequest (Some BINDING_HTTP_POST) WBase64 1 b
     (Some (Build_envsig (1, signed) true [])) None None None.
@@ -558,3 +570,47 @@ Example src_ovc_False_misread : misread_no (s_ovc src_ovc_False).
 Proof. exists "False". repeat split; try discriminate. vm_compute. auto. Qed.
 Example src_ovc_False_now_rejected : imodel (load_src src_ovc_False ex_tampered) = RejSig.
 Proof. vm_compute. reflexivity. Qed.
+
+(* ---------- SigAlg as received; IssueInstant as written ---------- *)
+(* a Redirect request under a signing requirement whose SigAlg parameter names no signature algorithm: rejected, whether
+   the Signature is a value nobody's key made or one the sender's key made over exactly these parameters; and a verdict
+   Accept would fail the property in both cases (so an implementation that "has nothing to complain about" because it
+   could not verify shows as a failing input, not only as a disagreement with the model) *)
+Definition ex_redirect_alg (sa : string) (g : idsig) : iinput :=
+  Build_input ex_cfg 1700000000 AuthnRequest (Some BINDING_HTTP_REDIRECT) WDeflate 1
+    (ex_body "https://idp.example.org/sso/redirect") None (Some "rs") (Some sa) (Some g).
+Definition ecdsa := "http://www.w3.org/2001/04/xmldsig-more#ecdsa-sha256".
+
+Lemma unverifiable_alg_witness :
+  imodel (ex_redirect_alg "" None) = RejSig
+  /\ imodel (ex_redirect_alg ecdsa (Some (1, (1, Some "rs", ecdsa)))) = RejSig
+  /\ ~ spec icert_of iesign idsign (ex_redirect_alg "" None) Accept
+  /\ ~ spec icert_of iesign idsign (ex_redirect_alg ecdsa (Some (1, (1, Some "rs", ecdsa)))) Accept.
+Proof.
+  split; [vm_compute; reflexivity|]. split; [vm_compute; reflexivity|].
+  split; intros H; apply spec_b_iff in H; vm_compute in H; discriminate.
+Qed.
+
+(* a request issued 36 hours ago.  Written in UTC it is stale.  Written as the local time of the zone +14:00 its date
+   and time fields lie 22 hours back, inside the window: the code refuses the spelling (NotValid), and a verdict Accept
+   would fail the property, because the instant the text denotes is what counts.  The same fields with 'Z' denote an
+   instant 22 hours ago: processed. *)
+Definition ex_instant (written : Z) (z : zone) : iinput :=
+  Build_input ex_cfg 1700000000 AuthnRequest (Some BINDING_HTTP_POST) WBase64 1
+    (Build_body AuthnRequest "2.0" (Some "https://idp.example.org/sso/post") written z
+       (Some "https://sp.example.org/sp.xml") true true 7)
+    (Some (Build_envsig (1, Build_body AuthnRequest "2.0" (Some "https://idp.example.org/sso/post") written z
+                               (Some "https://sp.example.org/sp.xml") true true 7) true [])) None None None.
+
+Lemma instant_spelling_witness :
+  imodel (ex_instant (1700000000 - 129600) ZUtc) = RejStale
+  /\ imodel (ex_instant (1700000000 - 79200) (ZOff 840)) = RejInvalid
+  /\ denoted (msg (ex_instant (1700000000 - 79200) (ZOff 840))) = Some (1700000000 - 129600)%Z
+  /\ ~ spec icert_of iesign idsign (ex_instant (1700000000 - 79200) (ZOff 840)) Accept
+  /\ imodel (ex_instant (1700000000 - 79200) ZUtc) = Accept
+  /\ spec icert_of iesign idsign (ex_instant (1700000000 - 79200) ZUtc) Accept.
+Proof.
+  split; [vm_compute; reflexivity|]. split; [vm_compute; reflexivity|]. split; [vm_compute; reflexivity|].
+  split; [intros H; apply spec_b_iff in H; vm_compute in H; discriminate|].
+  split; [vm_compute; reflexivity|]. apply spec_b_iff. vm_compute. reflexivity.
+Qed.
